@@ -1185,7 +1185,7 @@ func c03SignDecode(r *Run) {
 			val, _ := eval(iff.Cond, b, 0)
 			positive := (val != 0) == posOnTrue
 			if positive != (b < 128) {
-				r.Bad("C03.T9", key, iff.Pos(), "bytesToBigInt reads a value whose first byte is 0x%02X as %s: the sign is the top bit of the first byte (0x80 and above is negative), so that value decodes to a different number than the one encoded", b, map[bool]string{true: "non-negative", false: "negative"}[positive])
+				r.Bad("C03.T9", key, condPos(iff, fn), "bytesToBigInt reads a value whose first byte is 0x%02X as %s: the sign is the top bit of the first byte (0x80 and above is negative), so that value decodes to a different number than the one encoded", b, map[bool]string{true: "non-negative", false: "negative"}[positive])
 				return
 			}
 		}
@@ -1193,4 +1193,19 @@ func c03SignDecode(r *Run) {
 		return
 	}
 	r.Unk("C03.T9", key, fn.Pos(), "no branch on the first byte separating the non-negative from the two's-complement path was found")
+}
+
+// condPos: a position for a branch: the If has none in go/ssa, so take the condition's, else the function's.
+func condPos(iff *ssa.If, fn *ssa.Function) token.Pos {
+	if p := iff.Cond.Pos(); p.IsValid() {
+		return p
+	}
+	if in, ok := iff.Cond.(ssa.Instruction); ok {
+		for _, op := range in.Operands(nil) {
+			if op != nil && *op != nil && (*op).Pos().IsValid() {
+				return (*op).Pos()
+			}
+		}
+	}
+	return fn.Pos()
 }
